@@ -101,8 +101,70 @@ def check_reuse(case: Dict[str, Any]) -> Outcome:
     return out
 
 
+def check_pair(case: Dict[str, Any]) -> Outcome:
+    """two or three requests one after the other on ONE connection, each answered with its own error (code, message):
+    every call must raise the classified exception of ITS answer - nothing learnt from an earlier answer may leak"""
+    import asyncio
+
+    from chuk_mcp.protocol.messages.json_rpc_message import parse_message
+    from chuk_mcp.protocol.messages.send_message import send_message
+    from chuk_mcp.protocol.types.errors import NonRetryableError, RetryableError
+
+    out = Outcome(nontrivial=True, classes=("consecutive-calls-on-one-connection", f"calls:{len(case['pair'])}"))
+    answers: List[Any] = case["pair"]  # code, or None for a successful answer
+    results: List[Any] = []
+
+    async def side(res_, rec_):
+        n_ = {"k": 0}
+
+        def on_send(item):
+            w = item.model_dump(exclude_none=True) if hasattr(item, "model_dump") else item
+            if isinstance(w, dict) and "method" in w and w.get("id") is not None:
+                k = n_["k"]
+                n_["k"] += 1
+                code = answers[k] if k < len(answers) else None
+                wire = {"jsonrpc": "2.0", "id": w["id"], "result": {"ok": k}} if code is None else {"jsonrpc": "2.0", "id": w["id"], "error": {"code": code, "message": f"answer {k} code {code}"}}
+                asyncio.get_running_loop().call_later(0.02 if case.get("queued") else 0.07, res_.inject, parse_message(wire))
+
+        rec_.on_send = on_send
+        await asyncio.sleep(3600)
+
+    async def call(r, w):
+        for k in range(len(answers)):
+            try:
+                v = await send_message(r, w, "x/y", {"k": k}, timeout=2.0, message_id=(f"req-{k}" if case.get("own_ids") else None))
+                results.append(("return", v))
+            except Exception as e:  # noqa
+                results.append(("raise", e))
+        return None
+
+    res = drive(call, [], side=side, max_vtime=30)
+    if res.outcome != "return" or len(results) != len(answers):
+        out.fail("consecutive-calls-did-not-finish", f"{res.outcome} {res.exc!r} {results!r}")
+        return out
+    for k, (code, (how, val)) in enumerate(zip(answers, results)):
+        if code is None:
+            if how != "return" or val != {"ok": k}:
+                out.fail("successful-answer-after-an-error-not-returned", f"call {k} of {answers!r}: {how} {val!r}")
+            continue
+        want_cls = NonRetryableError if code in PERMANENT else RetryableError
+        if how == "return":
+            out.fail("error-response-completed-normally", f"call {k} of {answers!r}: returned {val!r}")
+        elif type(val) not in (RetryableError, NonRetryableError):
+            out.fail("error-response-raised-unclassified-exception", f"call {k} of {answers!r}: {type(val).__name__}: {val!r}")
+        elif getattr(val, "code", None) != code or isinstance(getattr(val, "code", None), bool):
+            out.fail("exception-carries-an-earlier-answers-code", f"call {k} of {answers!r}: raised code {getattr(val, 'code', None)!r}, its own answer said {code}")
+        elif type(val) is not want_cls:
+            out.fail("wrong-error-class", f"call {k} of {answers!r}: {type(val).__name__}")
+        elif f"answer {k} code {code}" not in str(val):
+            out.fail("exception-carries-an-earlier-answers-message", f"call {k} of {answers!r}: {str(val)!r}")
+    return out
+
+
 def check(case: Dict[str, Any]) -> Outcome:
     out = Outcome()
+    if case.get("pair"):
+        return check_pair(case)
     if case.get("static"):
         return check_static()
     if case.get("reuse"):
@@ -129,8 +191,17 @@ def check(case: Dict[str, Any]) -> Outcome:
                 from chuk_mcp.protocol.messages.send_message import CancellationToken
 
                 kw["cancellation_token"] = CancellationToken()  # present, never triggered
-            if "progress" in opts:
+            if "progress" in opts or any(o.startswith("progress_") for o in opts):
+                calls_ = {"n": 0}
+
                 async def on_progress(progress, total, message):
+                    calls_["n"] += 1
+                    if "progress_raises" in opts or ("progress_raises_later" in opts and calls_["n"] > 1):
+                        raise ValueError("the application's progress display failed")
+                    if "progress_slow_later" in opts and calls_["n"] > 1:
+                        import asyncio as _a
+
+                        await _a.sleep(5.0)
                     return None
 
                 kw["progress_callback"] = on_progress
@@ -177,8 +248,12 @@ def check(case: Dict[str, Any]) -> Outcome:
         item = {"jsonrpc": "2.0", "id": "$ID", "error": err}
         if case.get("typed"):
             item["$form"] = "typed"
+    sched: List[Any] = [(t_err, item, phase)]
+    if case.get("progress_before") and target == "send_message" and not peer:
+        # the server reported progress (the request's own token) shortly before it failed
+        sched.insert(0, (max(0.01, t_err - 0.04), {"jsonrpc": "2.0", "method": "notifications/progress", "params": {"progressToken": "$TOKEN", "progress": 1, "total": 2, "message": "half"}}))
     with debug_logging(bool(case.get("debug_log"))):  # (the application may run with logging.basicConfig(level=DEBUG))
-        res = drive(call, [(t_err, item, phase)])
+        res = drive(call, sched)
 
     out.nontrivial = (code not in NAMED) or has_data or msg is None
     out.key = {"target": target, "code": code, "message": msg, "data": case.get("data", "$absent")}
@@ -188,7 +263,7 @@ def check(case: Dict[str, Any]) -> Outcome:
         "data" if has_data else "nodata",
         "nomessage" if msg is None else "message",
         "bool-helper" if target in BOOL_HELPERS else "raising-helper",
-    ) + (("on-poll-boundary",) if not peer and case.get("t_err", 10) in (50, 100) else ()) + (("typed-class",) if case.get("typed") and msg is not None else ()) + (("peer-waiter",) if peer else ()) + tuple("opt:" + o for o in opts if target == "send_message") + (("logging:DEBUG",) if case.get("debug_log") else ())
+    ) + (("on-poll-boundary",) if not peer and case.get("t_err", 10) in (50, 100) else ()) + (("typed-class",) if case.get("typed") and msg is not None else ()) + (("peer-waiter",) if peer else ()) + tuple("opt:" + o for o in opts if target == "send_message") + (("progress-reported-before-the-error",) if case.get("progress_before") else ()) + (("logging:DEBUG",) if case.get("debug_log") else ())
 
     r = is_retryable_error(code)
     if not isinstance(r, bool):
@@ -276,6 +351,10 @@ def job_enum(col: Collector, seed: int, tier: str, shard: int, nshards: int) -> 
                 for opts_ in (["token"], ["progress"], ["token", "progress"]):
                     case = {"target": target, "code": code, "message": f"m{code}", "opts": opts_}
                     col.record(case, check(case))
+                for opts_ in (["progress"], ["progress_raises"], ["progress_raises_later"], ["progress_slow_later"], ["token", "progress_raises_later"]):
+                    for t_ in (10, 50):
+                        case = {"target": target, "code": code, "message": f"m{code}", "opts": opts_, "progress_before": True, "t_err": t_}
+                        col.record(case, check(case))
             if code in NAMED:
                 for extra_ in ({}, {"message": None}, {"typed": True}, {"data": {"k": [None]}}, {"peer": True}):
                     case = {"target": target, "code": code, "message": f"m{code}", "debug_log": True, **extra_}
@@ -291,6 +370,17 @@ def job_enum(col: Collector, seed: int, tier: str, shard: int, nshards: int) -> 
                 col.record(case, check(case))
         case = {"static": True}
         col.record(case, check(case))
+        # consecutive calls on one connection: every ordered pair of named codes (and success), then a third call
+        named = sorted(NAMED) + [None, 7]
+        for ia, a in enumerate(named):
+            for ib, b in enumerate(named):
+                if a is None and b is None:
+                    continue
+                case = {"pair": [a, b], "queued": bool((ia + ib) & 1), "own_ids": bool((ia + 2 * ib) & 2)}
+                col.record(case, check(case))
+        for a in sorted(NAMED):
+            case = {"pair": [a, None, -32603, a]}
+            col.record(case, check(case))
         col.exhaustive_parts.append(f"codes -33100..-31900 and -200..200 ({len(RANGES)}) x {len(targets)} targets, shape 'message only'; named codes and every 7th code additionally with data and with message absent; named codes additionally as the typed error class and/or with a concurrent request that dequeues the error first")
         col.extra["targets"] = targets
 
@@ -323,7 +413,9 @@ def cases(draw):
     if draw(st.integers(0, 3)) == 0:
         case["debug_log"] = True
     if target == "send_message" and draw(st.booleans()):
-        case["opts"] = draw(st.lists(st.sampled_from(["token", "progress"]), min_size=1, max_size=2, unique=True))
+        case["opts"] = draw(st.lists(st.sampled_from(["token", "progress", "progress_raises", "progress_raises_later", "progress_slow_later"]), min_size=1, max_size=2, unique=True))
+        if any(o.startswith("progress") for o in case["opts"]) and draw(st.booleans()):
+            case["progress_before"] = True
     return case
 
 
